@@ -15,6 +15,8 @@
 #include <stdio.h>
 #include <stdlib.h>
 #include <string.h>
+#include <fcntl.h>
+#include <unistd.h>
 #include <sys/resource.h>
 #include <unistd.h>
 
@@ -202,6 +204,7 @@ static uint64_t gcount(struct cmb_resourceguard *g) { return cmi_hashheap_count(
 /* After the final dump (nothing below is part of the compared log): end the run the way the library's own tests do - an event
  * stops every process that is still running, the queue is run dry, then every process is terminated and every object and the
  * event queue destroyed. An abort or a sanitizer report here fails the run like any other. */
+static uint64_t pool_cap[MAXO], buf_cap[MAXO], oq_cap[MAXO], pq_cap[MAXO];
 static struct { int c, kind, idx, which; } subs[64];
 static int nsub = 0;
 
@@ -223,6 +226,56 @@ static void end_all_evt(void *subject, void *object)
     for (int p = 0; p < nproc; p++) {
         if (running(p)) cmb_process_stop(&procs[p], NULL);
     }
+}
+
+/* After the dump: end the run (an event stops every process that is still running, the queue is run dry - nothing prints any
+ * more), then give every object a second life the way a model that reuses its objects between replications does - terminate,
+ * initialize again - and print the state the fresh object reports (Z lines; the model prints what a fresh object must report). */
+static void second_life(void)
+{
+    /* whatever still runs while the queue is run dry (a capped run has start events pending) must not print */
+    fflush(stdout);
+    const int saved = dup(STDOUT_FILENO);
+    const int devnull = open("/dev/null", O_WRONLY);
+    if (saved < 0 || devnull < 0) return;
+    (void)dup2(devnull, STDOUT_FILENO);
+    (void)cmb_event_schedule(end_all_evt, NULL, NULL, cmb_time(), INT64_MAX);
+    long m = 0;
+    while (cmb_event_execute_next()) {
+        if (++m >= DISPATCH_CAP) break;
+        if (m % 64 == 0) (void)cmb_event_schedule(end_all_evt, NULL, NULL, cmb_time(), INT64_MAX);   /* processes started meanwhile */
+    }
+    end_all_evt(NULL, NULL);
+    fflush(stdout);
+    (void)dup2(saved, STDOUT_FILENO);
+    close(saved); close(devnull);
+    if (cmb_event_queue_count() != 0u) { printf("Z the run could not be ended\n"); return; }
+    for (int i = 0; i < nres; i++) {
+        cmb_resource_terminate(res[i]); cmb_resource_initialize(res[i], "r");
+        printf("Z res %d inuse=%" PRIu64 " hist=%" PRIu64 "\n", i, cmb_resource_in_use(res[i]),
+               ((const struct cmb_dataset *)cmb_resource_history(res[i]))->count);
+    }
+    for (int i = 0; i < npool; i++) {
+        cmb_resourcepool_terminate(pools[i]); cmb_resourcepool_initialize(pools[i], "p", pool_cap[i]);
+        printf("Z pool %d inuse=%" PRIu64 " avail=%" PRIu64 " hist=%" PRIu64 "\n", i, cmb_resourcepool_in_use(pools[i]),
+               cmb_resourcepool_available(pools[i]), ((const struct cmb_dataset *)cmb_resourcepool_get_history(pools[i]))->count);
+    }
+    for (int i = 0; i < nbuf; i++) {
+        cmb_buffer_terminate(bufs[i]); cmb_buffer_initialize(bufs[i], "b", buf_cap[i]);
+        printf("Z buf %d level=%" PRIu64 " space=%" PRIu64 " hist=%" PRIu64 "\n", i, cmb_buffer_level(bufs[i]), cmb_buffer_space(bufs[i]),
+               ((const struct cmb_dataset *)cmb_buffer_history(bufs[i]))->count);
+    }
+    for (int i = 0; i < noq; i++) {
+        cmb_objectqueue_terminate(oqs[i]); cmb_objectqueue_initialize(oqs[i], "o", oq_cap[i]);
+        printf("Z oq %d len=%" PRIu64 " hist=%" PRIu64 "\n", i, cmb_objectqueue_length(oqs[i]),
+               ((const struct cmb_dataset *)cmb_objectqueue_history(oqs[i]))->count);
+    }
+    for (int i = 0; i < npq; i++) {
+        cmb_priorityqueue_terminate(pqs[i]); cmb_priorityqueue_initialize(pqs[i], "k", pq_cap[i]);
+        printf("Z pq %d len=%" PRIu64 " hist=%" PRIu64 "\n", i, cmb_priorityqueue_length(pqs[i]),
+               ((const struct cmb_dataset *)cmb_priorityqueue_history(pqs[i]))->count);
+    }
+    fflush(stdout);
 }
 
 static void teardown(void)
@@ -288,10 +341,10 @@ int main(void)
             continue;
         }
         if (!strcmp(w[0], "res")) { res[nres] = cmb_resource_create(); cmb_resource_initialize(res[nres], "r"); nres++; }
-        else if (!strcmp(w[0], "pool")) { pools[npool] = cmb_resourcepool_create(); cmb_resourcepool_initialize(pools[npool], "p", parse_cap(w[1])); npool++; }
-        else if (!strcmp(w[0], "buf")) { bufs[nbuf] = cmb_buffer_create(); cmb_buffer_initialize(bufs[nbuf], "b", parse_cap(w[1])); nbuf++; }
-        else if (!strcmp(w[0], "oq")) { oqs[noq] = cmb_objectqueue_create(); cmb_objectqueue_initialize(oqs[noq], "o", parse_cap(w[1])); noq++; }
-        else if (!strcmp(w[0], "pq")) { pqs[npq] = cmb_priorityqueue_create(); cmb_priorityqueue_initialize(pqs[npq], "k", parse_cap(w[1])); npq++; }
+        else if (!strcmp(w[0], "pool")) { pool_cap[npool] = parse_cap(w[1]); pools[npool] = cmb_resourcepool_create(); cmb_resourcepool_initialize(pools[npool], "p", pool_cap[npool]); npool++; }
+        else if (!strcmp(w[0], "buf")) { buf_cap[nbuf] = parse_cap(w[1]); bufs[nbuf] = cmb_buffer_create(); cmb_buffer_initialize(bufs[nbuf], "b", buf_cap[nbuf]); nbuf++; }
+        else if (!strcmp(w[0], "oq")) { oq_cap[noq] = parse_cap(w[1]); oqs[noq] = cmb_objectqueue_create(); cmb_objectqueue_initialize(oqs[noq], "o", oq_cap[noq]); noq++; }
+        else if (!strcmp(w[0], "pq")) { pq_cap[npq] = parse_cap(w[1]); pqs[npq] = cmb_priorityqueue_create(); cmb_priorityqueue_initialize(pqs[npq], "k", pq_cap[npq]); npq++; }
         else if (!strcmp(w[0], "cond")) { conds[ncond] = cmb_condition_create(); cmb_condition_initialize(conds[ncond], "c"); ncond++; }
         else if (!strcmp(w[0], "sub")) { subs[nsub].c = atoi(w[1]); subs[nsub].kind = atoi(w[2]); subs[nsub].idx = atoi(w[3]); subs[nsub].which = atoi(w[4]); nsub++; }
         else if (!strcmp(w[0], "proc")) {
@@ -345,6 +398,7 @@ int main(void)
     for (int i = 0; i < noq; i++) dump_wsum("oq", i, cmb_objectqueue_history(oqs[i]));
     for (int i = 0; i < npq; i++) dump_wsum("pq", i, cmb_priorityqueue_history(pqs[i]));
     fflush(stdout);
+    if (n < DISPATCH_CAP) second_life();        /* not after a capped run (events are still pending there) */
     teardown();
     return 0;
 }
